@@ -214,24 +214,46 @@ class Run:
             if m.points:
                 self.flags.add("noop_on_nonempty")
         elif k == "noop_foreign":
-            if not m.points:
+            if not m.points or not (can_read and can_write):
                 return
-            p = m.points[op[1][0] % len(m.points)]
-            others = sorted({x["measurement"] for x in m.points if x["measurement"] != p["measurement"]})
-            if not others:
+            names = sorted({x["measurement"] for x in m.points})
+            if len(names) < 2:
                 return
-            scope = others[op[1][2] % len(others)]
-            ls = _Resolver(m)
-            q = lockstep.Lockstep.resolve_hit(ls, [op[1][0], op[1][1], 0, 0], NEVER)
-            if m.matches(q, scope) or not m.matches(q, p["measurement"]):
-                return
+            scope = names[op[1][0] % len(names)]
             h = db.measurement(scope)
-            if op[3] and can_read:
-                # a scoped read first (whatever it memoises per measurement must not decide what the write touches)
+            target = None
+            if op[3]:
+                # a scoped read first (whatever it memoises per measurement must not decide what a later write touches) ...
                 self.unchanged(lambda: (h.count(qast.build(NOOPQ)), h.get_tag_keys(), h.get_timestamps()), "scoped reads")
+                # ... then rows of another measurement lying before this measurement's rows are removed, so that every later row
+                # moves up; preferably a foreign row ends up on a position this measurement used to occupy
+                old_pos = {i for i, x in enumerate(m.points) if x["measurement"] == scope}
+                for x in [x for x in m.points[: max(old_pos)] if x["measurement"] != scope]:
+                    gone = lambda y, _x=x: y["measurement"] == _x["measurement"] and y["time"] == _x["time"]  # noqa: E731
+                    keep = [y for y in m.points if not gone(y)]
+                    cands = [y for i, y in enumerate(keep) if y["measurement"] != scope and i in old_pos]
+                    if cands:
+                        q_rm = ["and", ["leaf", "meas", [], ["cmp", "==", x["measurement"]]], ["leaf", "time", [], ["cmp", "==", x["time"]]]]
+                        try:
+                            db.remove(qast.build(q_rm))
+                        except Exception as e:
+                            self.fail("write-raised", "remove raised %r" % (e,))
+                        m.remove(q_rm)
+                        target = cands[op[1][2] % len(cands)]
+                        self.acc.cls("noop_foreign_after_renumbering")
+                        break
+            if target is None:
+                foreign = [x for x in m.points if x["measurement"] != scope]
+                if not foreign:
+                    return
+                target = foreign[op[1][2] % len(foreign)]
+            ti = next(i for i, y in enumerate(m.points) if y is target)
+            q = lockstep.Lockstep.resolve_hit(_Resolver(m), [ti, op[1][1], 0, 0], NEVER)
+            if m.matches(q, scope) or not m.matches(q, target["measurement"]):
+                return
             fn = {"remove_h": lambda: h.remove(qast.build(q)), "remove_m": lambda: db.remove(qast.build(q), scope), "update_h": lambda: h.update(qast.build(q), tags={"zz_foreign": "1"})}[op[2]]
-            r = self.unchanged(fn, "%s scoped to %r with a query matching only a point of %r" % (op[2], scope, p["measurement"]), expect_oserror=not (can_read and can_write))
-            if can_read and can_write and r != 0:
+            r = self.unchanged(fn, "%s scoped to %r with a query matching only a point of %r" % (op[2], scope, target["measurement"]))
+            if r != 0:
                 self.fail("foreign-touched", "%s scoped to %r returned %r for a query that matches no point of that measurement" % (op[2], scope, r))
             self.flags.add("noop_on_nonempty")
             self.acc.cls("noop_foreign_" + op[2])
